@@ -350,6 +350,7 @@ Lemma create_inv st u priv foreign n amt p st' :
   /\ (forall u', u' <> MOD -> bal u' UKEX (led st') = bal u' UKEX (led st) - if String.eqb u' u then amt else 0).
 Proof.
   intros I (Hu & Hn & Hpf & Hamt & Hlp & Hmax) H. unfold create in H. rewrite Hpf in H.
+  destruct (negb (v_create_negative v) && (amt <? 0))%bool eqn:C0; [discriminate|].
   destruct (negb priv && foreign)%bool eqn:C1; [discriminate|].
   destruct (negb priv && (amt * 100 <? min_thr c))%bool eqn:C2; [discriminate|].
   destruct (negb (v_create_unchecked v) && (max_thr c <? amt))%bool eqn:E0; [discriminate|].
@@ -983,3 +984,107 @@ Lemma ex_result :
   find_dapp "alpha" (dapps st) = None /\ bal rU1 UKEX (led st) = 2000000000 - 2000000 /\ bal rU0 UKEX (led st) = 2000000000
   /\ map d_status (dapps st) = [3].
 Proof. vm_compute. repeat split; reflexivity. Qed.
+
+(* ================================================================ full strength on the repaired tree *)
+(* the three repaired defects are absent (what the probes find on the current tree) *)
+Definition fixed (v : variant) : Prop := v_prefix v = false /\ v_zero_blocks v = false /\ v_create_unchecked v = false.
+(* well-formed inputs: senders are not the module account, the LP denomination is not ukex (it is "lp/"+Denom),
+   and the two inputs outside the modelled domain: a negative or foreign-denominated creation bond of a
+   holder of the bond-free creation permission *)
+Definition wf_op (o : op) : Prop :=
+  match o with
+  | OCreate u priv foreign _ amt p => u <> MOD /\ (priv && foreign)%bool = false /\ 0 <= amt /\ p_lp p <> UKEX
+  | OBond u _ _ _ | OReclaim u _ _ _ => u <> MOD
+  | OTick _ | OLpMsg _ _ _ _ _ _ => True
+  | _ => False
+  end.
+Definition op_names (o : op) : list string := match o with OCreate _ _ _ n _ _ => [n] | _ => [] end.
+Definition op_users (o : op) : list string :=
+  match o with OCreate u _ _ _ _ _ | OBond u _ _ _ | OReclaim u _ _ _ => [u] | _ => [] end.
+Definition names_of (ops : list op) : list string := flat_map op_names ops.
+Definition users_of (ops : list op) : list string := flat_map op_users ops.
+
+Lemma wf_op_in v c N Us o : v_create_unchecked v = false -> wf_op o -> incl (op_names o) N -> incl (op_users o) Us -> op_in v c N Us o.
+Proof.
+  intros Hv W HN HU. destruct o; simpl in *; try tauto.
+  - destruct W as (A & B & C & D). repeat split; auto; [apply HU; now left|apply HN; now left|congruence].
+  - apply HU; now left.
+  - apply HU; now left.
+Qed.
+Lemma wf_ops_in v c ops : v_create_unchecked v = false -> Forall wf_op ops ->
+  forall N Us, incl (names_of ops) N -> incl (users_of ops) Us -> Forall (op_in v c N Us) ops.
+Proof.
+  intros Hv W. induction W as [|o r Wo Wr IH]; intros N Us HN HU; constructor.
+  - apply wf_op_in; auto; intros x Hx; [apply HN|apply HU]; unfold names_of, users_of; simpl; apply in_or_app; now left.
+  - apply IH; intros x Hx; [apply HN|apply HU]; unfold names_of, users_of; simpl; apply in_or_app; now right.
+Qed.
+Lemma wf_users_ok ops : Forall wf_op ops -> users_ok (users_of ops).
+Proof.
+  intros W u Hu. unfold users_of in Hu. apply in_flat_map in Hu. destruct Hu as (o & Ho & Hu).
+  rewrite Forall_forall in W. specialize (W o Ho). destruct o; simpl in *; try tauto; destruct Hu as [<-|[]]; tauto.
+Qed.
+
+Section Fixed.
+Variable v : variant.
+Variable c : config.
+Hypothesis Hfix : fixed v.
+
+Lemma fixed_inv ops l : 0 <= bal MOD UKEX l -> Forall wf_op ops ->
+  Inv c (names_of ops) (users_of ops) (run v c ops (empty_state l)).
+Proof.
+  intros Hl W. destruct Hfix as (F1 & F2 & F3). apply history_inv; auto.
+  - now apply repaired_separated.
+  - now apply wf_users_ok.
+  - apply wf_ops_in; auto; apply incl_refl.
+Qed.
+
+Lemma total_is_sum_fixed ops l : 0 <= bal MOD UKEX l -> Forall wf_op ops ->
+  forall n d, find_dapp n (dapps (run v c ops (empty_state l))) = Some d -> d_status d = 0 ->
+  d_total d = sum_bonds n (bonds (run v c ops (empty_state l))).
+Proof. intros Hl W. apply (i_sum _ _ _ _ (fixed_inv ops l Hl W)). Qed.
+
+Lemma total_max_fixed ops l : 0 <= bal MOD UKEX l -> Forall wf_op ops ->
+  forall n d, find_dapp n (dapps (run v c ops (empty_state l))) = Some d -> d_status d = 0 -> d_total d <= max_thr c.
+Proof. intros Hl W. apply (i_max _ _ _ _ (fixed_inv ops l Hl W)). Qed.
+
+Lemma bond_held_fixed ops l : 0 <= bal MOD UKEX l -> Forall wf_op ops ->
+  sum_totals (dapps (run v c ops (empty_state l))) <= bal MOD UKEX (led (run v c ops (empty_state l))).
+Proof. intros Hl W. apply (i_held _ _ _ _ (fixed_inv ops l Hl W)). Qed.
+
+Lemma refund_fixed ops l d : 0 <= bal MOD UKEX l -> Forall wf_op ops ->
+  let st := run v c ops (empty_state l) in
+  find_dapp (d_name d) (dapps st) = Some d -> d_status d = 0 -> d_total d < min_thr c ->
+  exists st', finish v c d st = Ok st'
+    /\ find_dapp (d_name d) (dapps st') = None
+    /\ (forall e, In e (bonds st') -> fst (fst e) <> d_name d)
+    /\ (forall u, u <> MOD -> bal u UKEX (led st') = bal u UKEX (led st) + bond_amt (d_name d) u (bonds st)).
+Proof.
+  intros Hl W st F S M. destruct Hfix as (F1 & F2 & F3).
+  destruct (failed_bootstrap_refund v c (names_of ops) (users_of ops) st d) as (st' & A & B & C & D & _); auto.
+  - now apply repaired_separated.
+  - now apply wf_users_ok.
+  - now apply fixed_inv.
+  - exists st'. auto.
+Qed.
+
+(* bond records follow the money: after any history [pre], over any further create / bond / reclaim messages *)
+Lemma deposits_fixed pre ops l : 0 <= bal MOD UKEX l -> Forall wf_op (pre ++ ops) -> forallb is_user_op ops = true ->
+  let st := run v c pre (empty_state l) in
+  (forall n u, bond_amt n u (bonds (run v c ops st)) = bond_amt n u (bonds st) + net_flow v c ops st n u)
+  /\ (forall u, u <> MOD -> bal u UKEX (led (run v c ops st)) = bal u UKEX (led st) - net_out v c ops st u).
+Proof.
+  intros Hl W Hu st. destruct Hfix as (F1 & F2 & F3).
+  set (N := names_of (pre ++ ops)). set (Us := users_of (pre ++ ops)).
+  assert (Hs : separated v N Us) by now apply repaired_separated.
+  assert (Hk : users_ok Us) by now apply wf_users_ok.
+  assert (Hall : Forall (op_in v c N Us) (pre ++ ops)) by (apply wf_ops_in; auto; apply incl_refl).
+  apply Forall_app in Hall. destruct Hall as [Hp Ho].
+  apply (bonds_follow_flows v c N Us Hs Hk); auto. apply history_inv; auto.
+Qed.
+End Fixed.
+
+Lemma repaired_fixed : fixed repaired.
+Proof. repeat split. Qed.
+(* the tree after the first three repairs (the conversion repair is independent of these theorems) *)
+Lemma current_fixed : fixed (mkVariant false false false true true).
+Proof. repeat split. Qed.
